@@ -667,9 +667,25 @@ func ruleReverseProxyFields(c *Ctx, p *Prog, rule string) {
 			nd++
 			bad := ""
 			scan := func(g *ssa.Function) {
-				if g.Parent() == nil {
-					bad = "a method value of / the module function " + FuncName(g)
+				if g.Parent() == nil && (g.Signature.Recv() != nil || isBoundWrapper(g)) {
+					bad = "a method (value) of a module type: " + FuncName(g)
 					return
+				}
+				for _, h := range WithClosures(g) {
+					// a plain function or literal: it must not keep state either
+					EachInstrRaw(h, func(j ssa.Instruction) {
+						var ops []*ssa.Value
+						for _, op := range j.Operands(ops) {
+							if op == nil || *op == nil {
+								continue
+							}
+							if gl, isG := (*op).(*ssa.Global); isG && gl.Pkg != nil && strings.HasPrefix(gl.Pkg.Pkg.Path(), ModPath) {
+								if _, isFn := derefT(gl.Type()).Underlying().(*types.Signature); !isFn {
+									bad = "a function that uses the package variable " + GlobalName(gl)
+								}
+							}
+						}
+					})
 				}
 				for _, h := range WithClosures(g) {
 					EachInstrRaw(h, func(j ssa.Instruction) {
@@ -1211,11 +1227,15 @@ func ruleLoopSharedCapture(c *Ctx, p *Prog, rule string, min int, pkgs ...string
 				cl := mc.Fn.(*ssa.Function)
 				for bi, b := range mc.Bindings {
 					al, ok := b.(*ssa.Alloc)
-					if !ok || InLoop(al.Block()) {
+					if !ok {
 						continue
 					}
 					for _, r := range Refs(al) {
-						if st, isSt := r.(*ssa.Store); isSt && st.Addr == ssa.Value(al) && InLoop(st.Block()) {
+						// the same cell is stored to again and the goroutine started again without the
+						// cell being re-created in between: a cycle through the store and the go
+						// statement that avoids the allocation (the range variable of a `go 1.21`-or-older
+						// module is one cell for the whole loop, even when the loop sits in another loop)
+						if st, isSt := r.(*ssa.Store); isSt && st.Addr == ssa.Value(al) && reachAvoiding(st.Block(), g.Block(), al.Block()) && reachAvoiding(g.Block(), st.Block(), al.Block()) {
 							name := "?"
 							if bi < len(cl.FreeVars) {
 								name = cl.FreeVars[bi].Name()
@@ -1731,4 +1751,100 @@ func onEveryPathFrom(v ssa.Value, src func(ssa.Value) bool) bool {
 		return r
 	}
 	return rec(v, 0)
+}
+
+// reachAvoiding: b is reachable from a (by at least zero edges) without entering avoid;
+// a and b themselves may not be avoid.
+func reachAvoiding(a, b, avoid *ssa.BasicBlock) bool {
+	if a == avoid || b == avoid {
+		return false
+	}
+	seen := map[*ssa.BasicBlock]bool{}
+	q := []*ssa.BasicBlock{a}
+	first := true
+	for len(q) > 0 {
+		x := q[0]
+		q = q[1:]
+		if x == b && !first {
+			return true
+		}
+		if x == b && first && a == b {
+			// same block: a cycle back to itself is needed unless the order inside the block is
+			// store-before-go, which the caller's two calls establish together
+			first = false
+			for _, s := range x.Succs {
+				if s != avoid && !seen[s] {
+					seen[s] = true
+					q = append(q, s)
+				}
+			}
+			continue
+		}
+		first = false
+		for _, s := range x.Succs {
+			if s != avoid && !seen[s] {
+				seen[s] = true
+				q = append(q, s)
+			}
+		}
+	}
+	return false
+}
+
+// ruleNoMutationOfHTTPDefaults: module code does not reconfigure net/http's process-wide
+// defaults (DefaultTransport, DefaultClient, DefaultServeMux): the backend-facing reverse
+// proxy runs on http.DefaultTransport, so a timeout or hook set "for the health check" on that
+// very object applies to every forwarded request.
+func ruleNoMutationOfHTTPDefaults(c *Ctx, p *Prog, rule string) {
+	isDefault := func(v ssa.Value) string {
+		for _, r := range Roots(v) {
+			if ld, ok := r.(*ssa.UnOp); ok && ld.Op == token.MUL {
+				r = ld.X
+			}
+			if g, ok := r.(*ssa.Global); ok && g.Pkg != nil && g.Pkg.Pkg.Path() == "net/http" {
+				switch g.Name() {
+				case "DefaultTransport", "DefaultClient", "DefaultServeMux":
+					return "http." + g.Name()
+				}
+			}
+		}
+		return ""
+	}
+	bad := ""
+	n := 0
+	for _, fn := range p.AllFuncs {
+		if !p.IsModFunc(fn) {
+			continue
+		}
+		EachInstrRaw(fn, func(i ssa.Instruction) {
+			st, ok := i.(*ssa.Store)
+			if !ok {
+				return
+			}
+			n++
+			if g, isG := st.Addr.(*ssa.Global); isG && g.Pkg != nil && g.Pkg.Pkg.Path() == "net/http" {
+				bad = "http." + g.Name() + " is replaced in " + FuncName(fn) + " at " + p.Pos(st.Pos())
+				return
+			}
+			if base, fld, okf := FieldAddrOf(st.Addr); okf {
+				// through a type assertion: http.DefaultTransport.(*http.Transport).X = …
+				b := base
+				for k := 0; k < 3; k++ {
+					if ta, isTA := b.(*ssa.TypeAssert); isTA {
+						b = ta.X
+						continue
+					}
+					if ex, isE := b.(*ssa.Extract); isE {
+						b = ex.Tuple
+						continue
+					}
+					break
+				}
+				if d := isDefault(b); d != "" {
+					bad = d + "." + fld + " is set in " + FuncName(fn) + " at " + p.Pos(st.Pos())
+				}
+			}
+		})
+	}
+	c.Check(rule, "http-defaults:not-reconfigured", p, 0, bad == "" && n > 0, fmt.Sprintf("%d stores in module code inspected: none writes http.DefaultTransport/DefaultClient/DefaultServeMux or a field of them", n), bad+": the backend-facing reverse proxy (and every other user of the default) inherits the setting — a response-header timeout meant for health checks turns slow backend responses into the proxy's own 502")
 }
